@@ -1,6 +1,7 @@
 (* engine c02c: replays the output of harness/c02c_hist.c (blocks OP / ST / DATA / RAW* / END) through the extracted
-   AdfChunks model.  argv.(1) = the variant of the code as five letters 0/1: unsigned count, fix_wall, fix_wblock,
-   fix_zero, fix_rblock ("00000" = the code as it is, "10000" = before d6f9e64, "01111" = with the four proposed repairs).
+   AdfChunks model.  argv.(1) = the variant of the code as five letters 0/1, one per commit d6f9e64 (signed count),
+   b21b08d (fix_wall), 3f8f7e0 (fix_wblock), 5177c7b (fix_zero), 5c54229 (fix_rblock): "11111" = the code as it is (Cur),
+   a 0 = the text before that commit.
 
    For every operation of the implementation:
      * the allocator's answers are read off the RAW FILE after the call (header and data-chunk table decoded with the
@@ -325,7 +326,7 @@ let run () =
   (if Array.length Sys.argv > 1 then
      let a = Sys.argv.(1) in
      if String.length a = 5 then
-       cf := { c_unsigned = a.[0] = '1'; c_fix_wall = a.[1] = '1'; c_fix_wblock = a.[2] = '1'; c_fix_zero = a.[3] = '1';
+       cf := { c_signed = a.[0] = '1'; c_fix_wall = a.[1] = '1'; c_fix_wblock = a.[2] = '1'; c_fix_zero = a.[3] = '1';
                c_fix_rblock = a.[4] = '1' });
   let cur_op = ref None and status = ref None and data = ref None and raws = ref [] in
   let finish () =
